@@ -222,7 +222,9 @@ def points(tier: str) -> List[Dict[str, Any]]:
             for ms in list(range(100, 1300, step)) + (list(range(2500, 3700, step)) if scenario != "early" else []):
                 offs.add(ms * 1000)
             for off in sorted(offs):
-                for mode in ("async_close", "sync_close"):
+                for mode in ("async_close", "sync_close", "sync_close_foreign_loop"):
+                    if mode == "sync_close_foreign_loop" and (off // 1000) % 4:
+                        continue  # the foreign thread runs an event loop of its own: a quarter of the instants
                     pts.append({"scenario": scenario, "jitter": jitter, "close_at_us": off, "mode": mode})
     return pts
 
@@ -248,7 +250,7 @@ def run_point(p: Dict[str, Any], verbose: bool = False) -> Tuple[Optional[Dict[s
         if p["mode"] == "async_close":
             w.run_coro(azc.async_close(), max_ms=60_000)
         else:
-            with w.outside():
+            with w.outside(foreign_loop=p["mode"] == "sync_close_foreign_loop"):
                 zc.close()
         t_ret = w.now_ms
         closed_trace = len(w.net.trace)
@@ -298,7 +300,7 @@ def run_point(p: Dict[str, Any], verbose: bool = False) -> Tuple[Optional[Dict[s
         if p["mode"] == "async_close":
             w.run_coro(azc.async_close(), max_ms=60_000)
         else:
-            with w.outside():
+            with w.outside(foreign_loop=p["mode"] == "sync_close_foreign_loop"):
                 zc.close()
         # three hours, with fresh traffic aimed at the dead sockets
         for k, dt in enumerate((1, 50, 300, 1000, 5000, 60_000, 600_000, 3_600_000, 7_200_000)):
